@@ -40,6 +40,7 @@ type Ctx struct {
 	stats   map[string]any
 
 	fnIndex       map[*types.Func]*FuncInfo
+	cfgs          map[*ast.BlockStmt]*bodyCFG
 	effMemo       map[*types.Func]*modEffect
 }
 
